@@ -60,6 +60,11 @@ type ev struct {
 }
 
 func rq(tag int, call string) ev { return ev{Recv: tag, Call: call} }
+
+// rqAny waits for any one library message (where two requests race by design).
+const anyTag = 1000
+
+func rqAny(call string) ev { return ev{Recv: anyTag, Call: call} }
 func rp(call string, legit wire, others ...wire) ev {
 	return ev{Recv: -1, Send: legit, Others: others, Call: call}
 }
@@ -85,19 +90,22 @@ type scenario struct {
 }
 
 func (s *scenario) finish() *scenario {
+	// RIdx: ordinal of this reply among the replies of the same kind within the
+	// same call instance (labels of repeated calls carry a "~n" suffix that the
+	// finding key drops)
 	s.sends = s.sends[:0]
 	last := ""
-	k := 0
+	seen := map[string]int{}
 	for i := range s.Script {
+		if s.Script[i].Call != last {
+			last = s.Script[i].Call
+			seen = map[string]int{}
+		}
 		if s.Script[i].Recv >= 0 {
 			continue
 		}
-		if s.Script[i].Call != last {
-			last = s.Script[i].Call
-			k = 0
-		}
-		s.Script[i].RIdx = k
-		k++
+		seen[s.Script[i].Send.Kind]++
+		s.Script[i].RIdx = seen[s.Script[i].Send.Kind]
 		s.sends = append(s.sends, i)
 	}
 	return s
@@ -205,6 +213,8 @@ type outcome struct {
 	// non-triviality facts
 	CallPendingAtEnd bool `json:"call_pending_when_connection_ended"`
 	CallsStarted     int  `json:"calls_started"`
+	NeededClose      bool `json:"calls_pending_until_local_close"`
+	leakFuncs        []string
 }
 
 // ---- goroutine bookkeeping ---------------------------------------------------------
@@ -244,23 +254,46 @@ const harnessMark = "verif/harness/"
 // libraryGoroutines returns the goroutines not in base that have a gouroboros
 // frame (also "created by" a gouroboros function) and are not one of the
 // harness's own caller goroutines (those are judged as calls, not as leaks).
-func libraryGoroutines(base map[int]bool) (leaks []gor, callers []gor) {
+// Goroutines parked in a function listed in ignore are skipped.
+func libraryGoroutines(base map[int]bool, ignore map[string]bool) (leaks []gor, callers []gor) {
 	for _, g := range allGoroutines() {
 		if base[g.ID] || !strings.Contains(g.Stack, libMark) {
 			continue
 		}
-		if strings.Contains(g.Stack, callerMark) {
+		if strings.Contains(g.Stack, callerMark) || strings.Contains(g.Stack, "faults.(*runner).newConn") ||
+			strings.Contains(g.Stack, "faults.(*runner).closer") {
+			// the harness's own goroutines inside an API call / NewConnection / Close():
+			// judged as calls
 			callers = append(callers, g)
 			continue
 		}
-		if strings.Contains(g.Stack, "faults.(*runner).newConn") {
-			// NewConnection itself still running (judged separately)
-			callers = append(callers, g)
+		if ignore[topFunc(g)] {
 			continue
 		}
 		leaks = append(leaks, g)
 	}
 	return
+}
+
+// topFunc is the innermost library function of a goroutine.
+func topFunc(g gor) string {
+	for _, l := range strings.Split(g.Stack, "\n") {
+		if strings.HasPrefix(l, libMark) {
+			f := strings.TrimPrefix(l, libMark)
+			if i := strings.LastIndex(f, "("); i > 0 {
+				f = f[:i]
+			}
+			return f
+		}
+		if strings.HasPrefix(l, "created by "+libMark) {
+			f := strings.TrimPrefix(l, "created by "+libMark)
+			if i := strings.Index(f, " in goroutine"); i > 0 {
+				f = f[:i]
+			}
+			return "created-by:" + f
+		}
+	}
+	return "?"
 }
 
 func clipStack(g gor, maxLines int) string {
@@ -290,17 +323,7 @@ func dumpOf(gs []gor, limit int) string {
 func topFrames(gs []gor) string {
 	seen := map[string]int{}
 	for _, g := range gs {
-		f := "?"
-		for _, l := range strings.Split(g.Stack, "\n") {
-			if strings.HasPrefix(l, libMark) {
-				f = strings.TrimPrefix(l, libMark)
-				if i := strings.LastIndex(f, "("); i > 0 {
-					f = f[:i]
-				}
-				break
-			}
-		}
-		seen[f]++
+		seen[topFunc(g)]++
 	}
 	var ks []string
 	for k, n := range seen {
@@ -380,7 +403,11 @@ func (r *runner) caller(c *ouroboros.Connection) {
 }
 
 func (r *runner) send(w wire) {
-	segs := rawpeer.SplitPayload(r.scn.ProtoID, r.peerResp, w.Data, r.cs.SegMax)
+	max := r.cs.SegMax
+	if max > 0 && len(w.Data)/max > 300 {
+		max = len(w.Data)/300 + 1 // keep the number of segments of a big block bounded
+	}
+	segs := rawpeer.SplitPayload(r.scn.ProtoID, r.peerResp, w.Data, max)
 	if err := r.peer.Send(segs...); err != nil {
 		r.logf("peer send %s: %v", w.Kind, err)
 		return
@@ -403,7 +430,7 @@ func (r *runner) await(tag int, d time.Duration) bool {
 		r.logf("peer: expected library message tag %d: %v", tag, err)
 		return false
 	}
-	if got := msgTag(m); got != tag {
+	if got := msgTag(m); got != tag && tag != anyTag {
 		r.logf("peer: expected library message tag %d, got %x", tag, clipb(m))
 		return false
 	}
@@ -446,16 +473,46 @@ func (r *runner) position() position {
 	case r.cs.Pos >= len(s.sends):
 		c := ""
 		if len(s.Script) > 0 {
-			c = s.Script[len(s.Script)-1].Call
+			c = baseLabel(s.Script[len(s.Script)-1].Call)
 		}
 		return position{-1, "end", c}
 	}
 	e := s.Script[s.sends[r.cs.Pos]]
-	return position{s.sends[r.cs.Pos], fmt.Sprintf("r%d=%s", e.RIdx, e.Send.Kind), e.Call}
+	at := "at=" + e.Send.Kind
+	if e.RIdx > 1 {
+		at += fmt.Sprintf("#%d", e.RIdx)
+	}
+	return position{s.sends[r.cs.Pos], at, baseLabel(e.Call)}
+}
+
+// baseLabel drops the "~n" instance suffix of a call label.
+func baseLabel(l string) string {
+	if i := strings.Index(l, "~"); i >= 0 {
+		return l[:i]
+	}
+	return l
 }
 
 // runCase executes one case and evaluates the oracle.
 func runCase(scn *scenario, cs caseSpec, bound time.Duration) outcome {
+	return runCaseIgnoring(scn, cs, bound, nil, nil)
+}
+
+func (r *runner) closer(c *ouroboros.Connection) {
+	_ = c.Close()
+	close(r.closeDone)
+}
+
+// closeGrace: how long after a peer disconnect the harness waits for pending
+// calls before it calls Close() itself.
+const closeGrace = 500 * time.Millisecond
+
+// knownBound: once this much time has passed, a case whose current symptom is a
+// listed known finding is not waited for any longer (it is enough to confirm
+// that the listed defect is still there).
+const knownBound = 1200 * time.Millisecond
+
+func runCaseIgnoring(scn *scenario, cs caseSpec, bound time.Duration, ignore map[string]bool, isKnown func(string) bool) outcome {
 	fk, _ := faultByName(cs.Fault)
 	r := &runner{scn: scn, cs: cs, fault: fk, bound: bound, t0: time.Now(),
 		errClosed: make(chan struct{}), closeDone: make(chan struct{}), callerDone: make(chan struct{})}
@@ -529,7 +586,7 @@ func runCase(scn *scenario, cs caseSpec, bound time.Duration) outcome {
 	case <-time.After(bound):
 		out.Symptom = "newconnection-hang"
 		out.What = "NewConnection did not return after the handshake was answered"
-		_, callers := libraryGoroutines(base)
+		_, callers := libraryGoroutines(base, ignore)
 		out.Dump = dumpOf(callers, 6)
 		out.Key = r.key(pos, "", out.Symptom)
 		return out
@@ -565,47 +622,102 @@ func runCase(scn *scenario, cs caseSpec, bound time.Duration) outcome {
 	out.Variant = variant
 
 	// ---- the connection ends
-	pendingBefore := r.pendingCall()
+	out.CallPendingAtEnd = r.pendingCall()
 	endAt := time.Now()
-	if ncE == nil && conn != nil {
-		if cs.EndLocal && !peerClosed {
-			r.logf("harness calls Close() (peer still open)")
-			go func() { _ = conn.Close(); close(r.closeDone) }()
-		} else {
-			if !peerClosed {
-				r.peer.Close()
-				r.logf("peer closes")
-			}
-			// a peer disconnect ends the connection: calls must return without the
-			// application having to call Close(); Close() is called once they did
-			// (or after a third of the bound, to see whether it unblocks them)
-			r.waitCalls(bound / 3)
+	closeCalled := ncE != nil || conn == nil
+	callClose := func() {
+		if !closeCalled {
+			closeCalled = true
 			r.logf("harness calls Close()")
-			go func() { _ = conn.Close(); close(r.closeDone) }()
+			go r.closer(conn)
 		}
 	}
-	out.CallPendingAtEnd = pendingBefore
+	if cs.EndLocal && !peerClosed {
+		r.logf("the harness ends the connection (peer still open)")
+		callClose()
+	} else if !peerClosed {
+		r.peer.Close()
+		peerClosed = true
+		r.logf("peer closes")
+	}
 
 	// ---- oracle: poll until everything has settled or the bound is over
-	deadline := endAt.Add(bound)
 	var leaks, callers []gor
-	sleep := 200 * time.Microsecond
-	for {
-		ok := chanClosed(r.callerDoneOrIdle()) && chanClosed(r.closeDone) && chanClosed(r.errClosed)
-		if ok {
-			leaks, callers = libraryGoroutines(base)
-			if len(leaks) == 0 && len(callers) == 0 {
-				break
+	var hung []string
+	assess := func() (symptom string) {
+		hung = hung[:0]
+		r.mu.Lock()
+		for _, c := range r.calls {
+			if c.Started && !c.Returned {
+				hung = append(hung, c.Name)
 			}
 		}
-		if time.Now().After(deadline) {
-			leaks, callers = libraryGoroutines(base)
+		r.mu.Unlock()
+		leaks, callers = libraryGoroutines(base, ignore)
+		out.leakFuncs = out.leakFuncs[:0]
+		seenF := map[string]bool{}
+		for _, g := range leaks {
+			if f := topFunc(g); !seenF[f] {
+				seenF[f] = true
+				out.leakFuncs = append(out.leakFuncs, f)
+			}
+		}
+		sort.Strings(out.leakFuncs)
+		switch {
+		case len(hung) > 0:
+			return "call-hang=" + strings.Join(hung, ",")
+		case !chanClosed(r.closeDone):
+			return "close-hang"
+		case !chanClosed(r.errClosed):
+			return "errchan-open"
+		case len(leaks) > 0:
+			return "goroutine-leak@" + strings.Join(out.leakFuncs, "+")
+		case len(callers) > 0 || !chanClosed(r.callerDone):
+			return "winding-down" // the harness's own goroutines are about to finish
+		}
+		return ""
+	}
+	keyOf := func(symptom string) string {
+		if strings.HasPrefix(symptom, "goroutine-leak@") {
+			// a pure leak (every call and Close() returned): the leaked function is the
+			// precise locator; which fault ended the connection does not matter
+			return fmt.Sprintf("%s:%s:%s", scn.Proto, orDash(pos.call), symptom)
+		}
+		return r.key(pos, variant, symptom)
+	}
+	sleep := 200 * time.Microsecond
+	symptom := ""
+	for {
+		el := time.Since(endAt)
+		if !closeCalled && (chanClosed(r.callerDone) || el >= closeGrace) {
+			// a peer disconnect ends the connection: calls are expected to return without
+			// the application calling Close(); it is called once they did, or after a
+			// grace period to see whether it unblocks them
+			if !chanClosed(r.callerDone) {
+				out.NeededClose = true
+				r.logf("calls still pending %v after the peer closed", closeGrace)
+			}
+			callClose()
+		}
+		symptom = ""
+		symptom = assess()
+		if symptom == "" {
+			break
+		}
+		if el >= bound {
+			break
+		}
+		if el >= knownBound && closeCalled && symptom != "winding-down" && isKnown != nil && isKnown(keyOf(symptom)) {
+			out.BoundMs = int(knownBound / time.Millisecond)
 			break
 		}
 		time.Sleep(sleep)
 		if sleep < 20*time.Millisecond {
 			sleep *= 2
 		}
+	}
+	if symptom == "winding-down" {
+		symptom = "harness-goroutine-stuck"
 	}
 	out.SettleMs = float64(time.Since(endAt).Microseconds()) / 1000
 
@@ -618,25 +730,18 @@ func runCase(scn *scenario, cs caseSpec, bound time.Duration) outcome {
 			out.CallsStarted++
 		}
 	}
-	var hung []string
-	for _, c := range out.Calls {
-		if c.Started && !c.Returned {
-			hung = append(hung, c.Name)
-		}
-	}
+	out.Symptom = symptom
 	switch {
-	case len(hung) > 0:
-		out.Symptom = "call-hang"
+	case strings.HasPrefix(symptom, "call-hang"):
 		out.What = fmt.Sprintf("API call %s has not returned %d ms after the connection ended", strings.Join(hung, ","), out.BoundMs)
-	case !chanClosed(r.closeDone):
-		out.Symptom = "close-hang"
+	case symptom == "close-hang":
 		out.What = fmt.Sprintf("Connection.Close() has not returned after %d ms", out.BoundMs)
-	case !chanClosed(r.errClosed):
-		out.Symptom = "errchan-open"
+	case symptom == "errchan-open":
 		out.What = fmt.Sprintf("ErrorChan() is still open %d ms after Close() returned", out.BoundMs)
-	case len(leaks) > 0:
-		out.Symptom = "goroutine-leak"
-		out.What = fmt.Sprintf("%d goroutine(s) started for the connection are still there %d ms after it ended", len(leaks), out.BoundMs)
+	case strings.HasPrefix(symptom, "goroutine-leak"):
+		out.What = fmt.Sprintf("%d goroutine(s) started for the connection are still there %d ms after it ended (every call and Close() returned, ErrorChan() closed)", len(leaks), out.BoundMs)
+	case symptom != "":
+		out.What = "harness: a harness goroutine did not finish"
 	}
 	if out.Symptom != "" {
 		extra := []string{}
@@ -653,13 +758,23 @@ func runCase(scn *scenario, cs caseSpec, bound time.Duration) outcome {
 			out.What += "; " + strings.Join(extra, "; ")
 		}
 		out.Dump = dumpOf(append(append([]gor(nil), callers...), leaks...), 14)
-		out.Key = r.key(pos, variant, out.Symptom)
+		out.Key = keyOf(out.Symptom)
+		if out.Symptom == "harness-goroutine-stuck" {
+			out.Key = "harness:goroutine-stuck"
+		}
 		out.What = fmt.Sprintf("%s [%s, call %s, fault %s%s at %s, %s]", out.What, scn.Proto, pos.call, cs.Fault, optEq(variant), pos.at, endMode(cs, peerClosed))
 	}
 	r.mu.Lock()
 	out.Trace = append([]string(nil), r.trace...)
 	r.mu.Unlock()
 	return out
+}
+
+func orDash(s string) string {
+	if s == "" {
+		return "-"
+	}
+	return s
 }
 
 func optEq(v string) string {
@@ -796,6 +911,31 @@ func (r *runner) surplusList(pos position) []wire {
 	return out
 }
 
+// variantCount is the number of alternatives the Variant field selects from.
+func variantCount(scn *scenario, fk faultKind, p int) int {
+	r := &runner{scn: scn, cs: caseSpec{Pos: p}, fault: fk}
+	pos := r.position()
+	switch fk {
+	case fOtherAdmitted:
+		if pos.evIdx >= 0 {
+			return len(scn.Script[pos.evIdx].Others)
+		}
+	case fNotAdmitted:
+		var e ev
+		if pos.evIdx >= 0 {
+			e = scn.Script[pos.evIdx]
+		}
+		return len(r.badList(e))
+	case fSurplus:
+		return len(r.surplusList(pos))
+	case fGarbage:
+		return len(garbageNames)
+	case fTruncSeg:
+		return 2 // inside the payload / inside the segment header
+	}
+	return 1
+}
+
 // applicable says whether a fault kind can be applied at a position of a scenario.
 func applicable(scn *scenario, fk faultKind, p int) bool {
 	end := p >= len(scn.sends)
@@ -868,7 +1008,7 @@ func (r *runner) script(pos position, out *outcome) (variant string, peerClosed 
 			}
 			full := rawpeer.Frame(rawpeer.Seg{ProtoID: s.ProtoID, Response: r.peerResp, Payload: d})
 			hdrCut := 8 + cut
-			if cs.Variant%4 == 3 {
+			if mod(cs.Variant, 2) == 1 {
 				hdrCut = 1 + mod(cs.Cut, 7) // inside the 8-byte segment header
 			}
 			r.logf("FAULT truncated segment: %d of %d bytes of the segment carrying %s, then close", hdrCut, len(full), e.Send.Kind)
@@ -931,7 +1071,13 @@ func (r *runner) script(pos position, out *outcome) (variant string, peerClosed 
 
 	for i, e := range s.Script {
 		if e.Recv >= 0 {
-			if !r.await(e.Recv, reqWait) {
+			wait := reqWait
+			if out.Injected {
+				// after the fault the library may legitimately never send another
+				// request; the peer does not wait long for one
+				wait = 150*time.Millisecond + time.Duration(cs.LingerUs)*time.Microsecond
+			}
+			if !r.await(e.Recv, wait) {
 				if !out.Injected {
 					out.Desync = true
 				}
@@ -947,6 +1093,12 @@ func (r *runner) script(pos position, out *outcome) (variant string, peerClosed 
 			continue // faults that keep the connection: the legitimate script goes on
 		}
 		r.send(e.Send)
+	}
+	if r.fault == fNone {
+		select {
+		case <-r.callerDone:
+		case <-time.After(reqWait):
+		}
 	}
 	if pos.at == "end" {
 		// let the last call finish before the fault, so that the position is really "after the conversation"
